@@ -654,6 +654,9 @@ func runC09(ctx *common.Ctx) error {
 	if err := x.batchDeletes(thorough); err != nil {
 		return err
 	}
+	if err := x.listings(); err != nil {
+		return err
+	}
 
 	res.ModelCases = len(x.cases)
 	b, _ := json.Marshal(map[string]int{"corruption_cases": ncorr})
@@ -679,8 +682,9 @@ func (x *h) histories(thorough bool) error {
 		}
 		nids := 2 + rng.Intn(4)
 		ids := make([]imap.InternalMessageID, nids)
+		bnd := x.boundaryIDs() // nil UUID, all-ff, an ID and its one-bit neighbours: IDs like any other
 		for i := range ids {
-			ids[i] = x.newID()
+			ids[i] = bnd[i%len(bnd)]
 		}
 		ref := map[int][]byte{}
 		var trace []string
